@@ -63,11 +63,11 @@ PROPS = {
         ],
     },
     "C08": {
-        "level": "other", "prove": False, "ground": ["onlyPairsShareGroup", "laterPairsShareGroup", "tableShape"],
+        "level": "other", "prove": True, "ground": ["onlyPairsShareGroup", "laterPairsShareGroup", "tableShape"],
         "bounded": {"search": "C08", "quick": "15s", "thorough": "120s",
                     "what": "for every id X of the active and deprecated lists: X / X-only and X+ / X-or-later are interchanged as expression and as allowed entry against every id of the same family (with and without '+', with and without exception) and unrelated ids, on the real code (exhaustive over the shipped tables within the time budget; BOUNDED)"},
-        "explanation": "Table part (ground evaluation on every run): every listed id X and the id that 'X-only' denotes are identical, share a version group, or are both outside the family table. Code part: '-or-later counts as +' and 'the lookup strips -or-later' are proved clauses of the parser / getLicenseRange contracts (checked under C02 / C05); which token a spelling produces (normalizeLicense's case analysis) is not under a functional contract, so the interchangeability of the spellings themselves is covered by the bounded execution over all listed ids.",
-        "assumptions": ["normalizeLicense's lexeme classification is not under a functional contract (bounded execution instead)"],
+        "explanation": "Table part (ground evaluation on every run): every listed id X and the id that 'X-only' denotes are identical, share a version group, or are both outside the family table. Code part: '-or-later counts as +' and 'the lookup strips -or-later' are proved clauses of the parser / getLicenseRange contracts (checked under C02 / C05); normalizeLicense is proved to accept a lexeme iff it is a valid id in the sense of the property (listed, or a listed id carrying -only / -or-later, or followed by '+' with a listed -or-later form) and to produce a list entry as token value; WHICH entry each spelling maps to (and hence the interchangeability of the spellings) is covered by the bounded execution over all listed ids.",
+        "assumptions": ["the mapping from spelling to canonical token value (normalizeLicense's priority order) is only covered by the bounded execution"],
     },
     "C09": {
         "level": "proof", "prove": True, "ground": ["foldUnique", "noOperatorPrefix", "tableShape"],
